@@ -16,6 +16,7 @@ def srcEv (w : Tape.World) (src : Str) : Option FileEv :=
   | some data =>
     if (splitSource src).1.length > 8 then none
     else if (splitSource src).2.1.length > 3 then none
+    else if ((splitSource src).1 ++ (splitSource src).2.1).any (· ≥ 128) then none
     else some (evOf (splitSource src).1 (dispatch (splitSource src).1 (splitSource src).2.1 (splitSource src).2.2.1).2.2
       (dispatch (splitSource src).1 (splitSource src).2.1 (splitSource src).2.2.1).1
       (dispatch (splitSource src).1 (splitSource src).2.1 (splitSource src).2.2.1).2.1 data)
@@ -64,11 +65,13 @@ theorem srcEvents_announce (w : Tape.World) (src : Str) (img : Image) (cur s : N
     · simp [storedOn]
     · split
       · simp [storedOn]
-      · rcases fileEvents_announce (splitSource src).1 (dispatch (splitSource src).1 (splitSource src).2.1 (splitSource src).2.2.1).2.2
-          (dispatch (splitSource src).1 (splitSource src).2.1 (splitSource src).2.2.1).1
-          (dispatch (splitSource src).1 (splitSource src).2.1 (splitSource src).2.2.1).2.1 data 4 img cur s with h | h
-        · rw [h]; exact List.nil_sublist _
-        · rw [h]; exact List.Sublist.refl _
+      · split
+        · simp [storedOn]
+        · rcases fileEvents_announce (splitSource src).1 (dispatch (splitSource src).1 (splitSource src).2.1 (splitSource src).2.2.1).2.2
+            (dispatch (splitSource src).1 (splitSource src).2.1 (splitSource src).2.2.1).1
+            (dispatch (splitSource src).1 (splitSource src).2.1 (splitSource src).2.2.1).2.1 data 4 img cur s with h | h
+          · rw [h]; exact List.nil_sublist _
+          · rw [h]; exact List.Sublist.refl _
 
 theorem loopEvents_announce (w : Tape.World) : ∀ (srcs : List Str) (img : Image) (cur s : Nat),
     ((storedOn s (loopEvents w srcs img cur)).map (·.2)).Sublist (srcs.filterMap (srcEv w)) := by
